@@ -25,7 +25,7 @@ EXPLANATION = (
     "are read only through the typed getters, and an exception is raised only inside a function handed to the "
     "getter as valid_value_fn (so that lenient mode can fall back to the default); R17d for every rule the "
     "documentation page agrees with the code on aliases, enabled-by-default, configuration prefixes and, "
-    "per configuration item, name, type and literal default; R17e nothing reads the properties before every layer is applied; R17f (contradiction rule) every integer validator rejects exactly the integers outside the range its own error message states - the rejection condition (if-block or early-return form) is a closed predicate over one integer and is evaluated over a window of integers; the section a rule is configured from is the result of the lookup over all its identifiers and over nothing else. R17g the error reporter of the application object ends the process under exactly one flag and no call from inside an exception handler passes anything but True for it (a strict-mode configuration error always stops the run). Not decided: the value-level behaviour of the "
+    "per configuration item, name, type and literal default; R17e nothing reads the properties before every layer is applied; R17f (contradiction rule) every integer validator rejects exactly the integers outside the range its own error message states - the rejection condition (if-block or early-return form) is a closed predicate over one integer and is evaluated over a window of integers; the section a rule is configured from is the result of the lookup over all its identifiers and over nothing else. R17g the error reporter of the application object ends the process under exactly one flag and no call from inside an exception handler passes anything but True for it (a strict-mode configuration error always stops the run). R17h every documented name of the default configuration file is loaded through the loader its extension calls for; R17i validators look the value as written up in the allowed values. Not decided: the value-level behaviour of the "
     "application_properties library (layer override, type coercion, strict-mode errors)."
 )
 ASSUMPTIONS = [
